@@ -729,6 +729,49 @@ for _n in ("due_prefix_vals", "due_prefix_completes", "drop_due_prefix"):
     _helper(_n)(_duefun_helper(_n))
 
 
+def _cmp_or_default(it, cmp):
+    return it.module_get("reactivex.internal.basic", "default_comparer") if cmp is None else cmp
+
+
+@_helper("match_code")
+def _h_match_code(it, args, kw):
+    """match_code(keys, key, comparer): 0 no stored key matches, 1 one does, 2 the comparer raises first (natives.match_apply)"""
+    seq, key, cmp = args
+    cmp = _cmp_or_default(it, cmp)
+    t = natives.seq_of(it, seq)
+    if t is None:
+        return 0
+    M, _ME = natives.match_apply(it, cmp, t, it.to_val(key))
+    return IntSV(M(t, it.to_val(key)))
+
+
+@_helper("match_exc")
+def _h_match_exc(it, args, kw):
+    seq, key, cmp = args
+    cmp = _cmp_or_default(it, cmp)
+    t = natives.seq_of(it, seq)
+    if t is None:
+        return None
+    _M, ME = natives.match_apply(it, cmp, t, it.to_val(key))
+    return SV(ME(t, it.to_val(key)), "val", tag="exc")
+
+
+@_helper("seen_match")
+def _h_seen_match(it, args, kw):
+    """spec primitive: does the comparer accept one of the stored keys (asked in order; it may raise on the way)?"""
+    seq, key, cmp = args
+    cmp = _cmp_or_default(it, cmp)
+    t = natives.seq_of(it, seq)
+    if t is None:
+        return False
+    k = it.to_val(key)
+    M, ME = natives.match_apply(it, cmp, t, k)
+    if it.ctx.branch(M(t, k) == 2, "the comparer raises while the stored keys are scanned"):
+        raise PyExc(SV(ME(t, k), "val", tag="exc"))
+    it.ctx.assume(z3.Or(M(t, k) == 0, M(t, k) == 1))
+    return BoolSV(M(t, k) == 1)
+
+
 def _duepred_helper(name):
     def h(it, args, kw):
         t = natives.seq_of(it, args[0])
@@ -1141,7 +1184,7 @@ class OpHarness:
         # the recursive sequence functions a spec module defines natively are the uninterpreted functions with their
         # defining equations on the symbolic side
         menv = it.module_env(modname)
-        for n in list(natives.SEQFUNS) + list(natives.DUEFUNS):
+        for n in list(natives.SEQFUNS) + list(natives.DUEFUNS) + ["seen_match"]:
             if n in menv.vars or n in it.loader.load(modname).bindings():
                 menv.vars[n] = SPEC_HELPERS[n]
         s = Obj(cls)
@@ -1303,7 +1346,7 @@ class OpHarness:
         """timer families with a ghost invariant (`ghost_inv`, over the spec state and the timer's identity k only): it is
         established when the timer is created and preserved by every step, for every timer still pending (arbitrary k)"""
         pre = []
-        for name, T in getattr(self.c, "timers", {}).items():
+        for name, T in list(getattr(self.c, "timers", {}).items()) + list(getattr(self.c, "families", {}).items()):
             if T.get("ghost_inv"):
                 k = ctx.fresh("k_pending", "int")
                 pre.append((name, k, self.ghost_eval(it, cells_env, s, T["ghost_inv"], k)))
@@ -1311,7 +1354,7 @@ class OpHarness:
 
     def ghost_post(self, it, ctx, uid, cells_env, s, pre):
         for name, k, before in pre:
-            after = self.ghost_eval(it, cells_env, s, self.c.timers[name]["ghost_inv"], k)
+            after = self.ghost_eval(it, cells_env, s, (self.c.timers.get(name) or self.c.families[name])["ghost_inv"], k)
             goal = natives.mk_or((not before) if isinstance(before, bool) else z3.Not(before), after)
             self.record(ctx, uid + f"/timer[{name}]/ghost-invariant-preserved", goal, kind="inv")
 
@@ -1487,7 +1530,7 @@ class OpHarness:
         ctx = it.ctx
         w = self.w
         if iterable is not None:
-            raise Unsupported("for-loop contracts not implemented")
+            return self.on_for_loop(it, st, env, key, lc, iterable)
         lenv = Env(env, env.module)
         for n, f in SPEC_HELPERS.items():
             lenv.vars[n] = f
@@ -1596,6 +1639,60 @@ class OpHarness:
                 self.record(ctx, oid + "/decreases", z3.And(dec1 < dec0, dec0 > 0), kind="loop")
             raise PathEnd()
         it.exec_block(st.orelse, env)
+
+    def on_for_loop(self, it, st, env, key, lc, iterable):
+        """`for [i,] a in [enumerate(]T[)]` over a symbolic list with a loop contract: the invariant speaks about `rest_`, the
+        part of T not visited yet (`done_`: the part visited).  Entry: rest_ = T.  One ARBITRARY iteration: T = done_ ++ [a] ++
+        rest', invariant assumed for rest_ = [a] ++ rest'; the body may leave the loop by return / raise (the path goes on in the
+        caller, knowing the invariant) or fall through - then the invariant must hold for rest'.  Exit: the invariant for rest_ = []."""
+        import ast
+
+        ctx = it.ctx
+        if not (isinstance(iterable, ListObj) and iterable.symbolic) or st.orelse:
+            raise Unsupported("for-loop contract over something else than a symbolic list")
+        enum = iterable.elem.startswith("enum:")
+        elem = iterable.elem[5:] if enum else iterable.elem
+        T = iterable.term
+        lenv = Env(env, env.module)
+        for n, f in SPEC_HELPERS.items():
+            lenv.vars[n] = f
+        oid = f"{self.c.uid}/loop:{key[0]}#{key[1]}"
+
+        def inv_at(rest, done):
+            lenv.vars["rest_"] = ListObj(term=rest, elem=elem)
+            lenv.vars["done_"] = ListObj(term=done, elem=elem)
+            ctx.spec += 1
+            try:
+                return it.truth_term(self.eval_src(it, lc["inv"], lenv))
+            finally:
+                ctx.spec -= 1
+        E = z3.Empty(smt.SeqVal)
+        tr = self.w.trace(lc.get("observer", "observer"))
+        dead = tr.terminal is not None and tr.terminal == ("X",)  # after the end: only "no exception escapes" matters
+        if not dead:
+            self.record(ctx, oid + "/inv-entry", inv_at(T, E), kind="loop")
+        which = ctx.choose(2, f"for-loop {key[0]}#{key[1]}: 0 = one arbitrary iteration, 1 = after the last one")
+        if which == 1:
+            t = inv_at(E, T)
+            ctx.assume(_bt(t))
+            return
+        a = ctx.fresh("visited", "val").t
+        pre, post = ctx.fresh("done", "seq").t, ctx.fresh("rest", "seq").t
+        ctx.assume(T == z3.Concat(pre, z3.Unit(a), post))
+        suffix = z3.Concat(z3.Unit(a), post)
+        natives.seqfun_pop_fact(it, suffix, a, post)  # the recursive functions unfold at this decomposition
+        ctx.assume(_bt(inv_at(suffix, pre)))
+        val = it.elem_from_term(elem, a)
+        it.assign(st.target, (IntSV(z3.Length(pre)), val) if enum else val, env)
+        try:
+            it.exec_block(st.body, env)
+        except _Break:
+            raise Unsupported("break in a for-loop with a contract")
+        except _Continue:
+            pass
+        if not dead:
+            self.record(ctx, oid + "/inv-preserved", inv_at(post, z3.Concat(pre, z3.Unit(a))), kind="loop")
+        raise PathEnd()
 
     # -- the per-path scripts --------------------------------------------------------------
     def build(self, it, env):
@@ -1972,7 +2069,7 @@ class OpHarness:
                 it.call(outer[0], [inner], {})
             except PyExc:
                 raise PathEnd()
-            self.spec_call(it, s, "on_next", [Opaque("observer", "spec_out"), inner])
+            self.spec_call(it, s, "on_next", [Opaque("observer", "spec_out")] + ([0] if len(c.sources) > 1 else []) + [inner])
             self.in_handler = False
             ctx.results.clear()  # the creating step is verified as the outer on_next
         member = None
@@ -2019,8 +2116,15 @@ class OpHarness:
             donec = self.spec_done(it, ctx, s)
             self.record(ctx, uid + "/member-inv-established-at-creation", natives.mk_or(donec, invc), kind="inv")
             ctx.results[-1].oid = f"{c.uid}/{fam}/member-inv-established-at-creation"
+        if F.get("ghost_inv") and k is not None:
+            self.record(ctx, uid + "/ghost-invariant-established", self.ghost_eval(it, cells_env, s, F["ghost_inv"], k), kind="inv")
+            ctx.results[-1].oid = f"{c.uid}/{fam}/ghost-invariant-established"
         # --- an arbitrary later state in which this member is live
         self.havoc(it, ctx, cells_env, s)
+        if F.get("ghost_inv") and k is not None:
+            # proved established at creation and preserved by every step for an arbitrary pending member
+            g = self.ghost_eval(it, cells_env, s, F["ghost_inv"], k)
+            ctx.assume(g if not isinstance(g, bool) else z3.BoolVal(g))
         for idx in member_stages:
             # live: none of the stages between the member's source and the operator has terminated
             if w.cspecs[idx][2]["stopped"] is True:
